@@ -562,5 +562,6 @@ func (w *Worker) buildFixture(st *State) *Fixture {
 		fx.Viol = append(fx.Viol, v.Label)
 	}
 	fx.Panics = st.Status == PathPanicked
+	fx.Approx = st.Approx
 	return fx
 }
